@@ -142,6 +142,10 @@ func dirname(path string) string {
 }
 
 func realPath(p string) string {
+	// the empty path stands for an unresolvable name; EvalSymlinks would turn it into "."
+	if p == "" {
+		return ""
+	}
 	f, err := filepath.EvalSymlinks(p)
 	if err != nil {
 		return ""
